@@ -76,7 +76,8 @@ def stream_function_velocity_2d(ctx, shape):
 
 
 @scenario
-def forcing_update_is_library_curl(ctx, dim, shape):
+def forcing_update_is_library_curl(ctx, dim, shape, layout="c"):
+    from checks.c11 import _laid_out
     _, spne, _, _ = sopht_modules()
     shape = tuple(shape)
     p = ctx.scalar("prefactor")
@@ -84,7 +85,7 @@ def forcing_update_is_library_curl(ctx, dim, shape):
         upd = spne.gen_update_vorticity_from_velocity_forcing_pyst_kernel_2d(real_t=ctx.real_t, num_threads=False)
         pen = spne.gen_update_vorticity_from_penalised_velocity_pyst_kernel_2d(real_t=ctx.real_t, num_threads=False)
         curl = spne.gen_inplane_field_curl_pyst_kernel_2d(real_t=ctx.real_t, num_threads=False)
-        w, f = ctx.array("w", shape), ctx.array("f", (2, *shape))
+        w, f = _laid_out(ctx, "w", shape, layout), ctx.array("f", (2, *shape))
         w0 = w.copy()
         c = ctx.array("c0", shape)
         ws, vs = shape, (2, *shape)
@@ -92,7 +93,7 @@ def forcing_update_is_library_curl(ctx, dim, shape):
         upd = spne.gen_update_vorticity_from_velocity_forcing_pyst_kernel_3d(real_t=ctx.real_t, num_threads=False)
         pen = spne.gen_update_vorticity_from_penalised_velocity_pyst_kernel_3d(real_t=ctx.real_t, num_threads=False)
         curl = spne.gen_curl_pyst_kernel_3d(real_t=ctx.real_t, num_threads=False, reset_ghost_zone=False)
-        w, f = ctx.array("w", (3, *shape)), ctx.array("f", (3, *shape))
+        w, f = _laid_out(ctx, "w", (3, *shape), layout), ctx.array("f", (3, *shape))
         w0 = w.copy()
         c = ctx.array("c0", (3, *shape))
         ws, vs = (3, *shape), (3, *shape)
@@ -104,7 +105,7 @@ def forcing_update_is_library_curl(ctx, dim, shape):
     ctx.eq_array("ring_untouched", w, w0, cells=ring)
     # penalised variant == forcing update with f = u_pen - u
     up, u = ctx.array("up", vs), ctx.array("u", vs)
-    wa = ctx.array("wa", ws)
+    wa = _laid_out(ctx, "wa", ws, layout)  # the updated field may live in any ndarray (view of a padded / transposed / strided buffer)
     wb = wa.copy()
     pen(vorticity_field=wa, penalised_velocity_field=up, velocity_field=u, prefactor=ctx.cast(p))
     upd(vorticity_field=wb, velocity_forcing_field=up - u, prefactor=ctx.cast(p))
@@ -222,9 +223,14 @@ def main():
             for sh in ((70, 4), (4, 70)):
                 chk.add(stream_function_velocity_2d, real_t=rt, shape=sh)
                 chk.add(forcing_update_is_library_curl, real_t=rt, dim=2, shape=sh)
+        if rt == "float64":
+            # memory layout of the updated vorticity field: interior of a padded allocation, transposed storage, every second cell
+            for lay in ("interior", "fortran", "strided"):
+                chk.add(forcing_update_is_library_curl, real_t=rt, dim=2, shape=(4, 5), layout=lay)
+                chk.add(forcing_update_is_library_curl, real_t=rt, dim=3, shape=(4, 3, 5), layout=lay)
         chk.add(forcing_update_called_again_with_another_field, real_t=rt, dim=2, shape=s2[0])
         chk.add(forcing_update_called_again_with_another_field, real_t=rt, dim=3, shape=s3[0])
-    chk.bounds = [f"3D grids {s3}, 2D grids {s2}, divergence monitor on (4,3,5)", "long thin grids (70,4,3),(3,70,4),(4,3,70) / (70,4),(4,70)", f"precisions {precisions}", "all cell values and prefactors symbolic", "call history: two calls of one kernel object with different forcing buffers passed through temporary wrappers (identity reuse forced where CPython allows)"]
+    chk.bounds = [f"3D grids {s3}, 2D grids {s2}, divergence monitor on (4,3,5)", "long thin grids (70,4,3),(3,70,4),(4,3,70) / (70,4),(4,70)", f"precisions {precisions}", "all cell values and prefactors symbolic", "layouts of the updated vorticity field in the forcing / penalised updates: C order, interior of a padded allocation, transposed storage, every second cell of a wider buffer", "call history: two calls of one kernel object with different forcing buffers passed through temporary wrappers (identity reuse forced where CPython allows)"]
     chk.outside = ["larger grids (the identities are per-cell stencil compositions: every interior stencil-of-stencils pattern occurs on these grids)", "rounding"]
     chk.assumptions = ["exact real arithmetic", "sqrt in the divergence monitor: s >= 0 and s^2 = radicand"]
     chk.run()
